@@ -228,7 +228,36 @@ const (
 var CookieSecret = bytes.Repeat([]byte{0x5a}, 32)
 var OtherSecret = bytes.Repeat([]byte{0x3c}, 32)
 
-// NewProxyEnv builds a proxy exactly like cmd/sso-proxy: configuration struct -> SetUpstreamConfigs
+var envMu sync.Mutex
+
+// loadConfigFromEnv sets the given variables, calls the real proxy.LoadConfig and restores the
+// process environment.
+func loadConfigFromEnv(env map[string]string) (proxy.Configuration, error) {
+	envMu.Lock()
+	defer envMu.Unlock()
+	type saved struct {
+		v  string
+		ok bool
+	}
+	old := map[string]saved{}
+	for k, v := range env {
+		pv, ok := os.LookupEnv(k)
+		old[k] = saved{pv, ok}
+		os.Setenv(k, v)
+	}
+	defer func() {
+		for k, sv := range old {
+			if sv.ok {
+				os.Setenv(k, sv.v)
+			} else {
+				os.Unsetenv(k)
+			}
+		}
+	}()
+	return proxy.LoadConfig()
+}
+
+// NewProxyEnv builds a proxy exactly like cmd/sso-proxy: environment variables -> LoadConfig -> Validate -> SetUpstreamConfigs
 // (YAML file) -> proxy.New -> logging handler.
 func NewProxyEnv(o ProxyOpts) (*ProxyEnv, error) {
 	proxyproviders.VerifRelaxClientTimeouts()
@@ -249,46 +278,63 @@ func NewProxyEnv(o ProxyOpts) (*ProxyEnv, error) {
 	if err := os.WriteFile(cfgFile, []byte(yaml), 0o644); err != nil {
 		return nil, err
 	}
-	c := proxy.DefaultProxyConfig()
-	c.ProviderConfig.ProviderURLConfig.External = e.Auth.Server.URL
-	if o.ProviderExternal != "" {
-		c.ProviderConfig.ProviderURLConfig.External = o.ProviderExternal
-		c.ProviderConfig.ProviderURLConfig.Internal = o.ProviderInternal
+	// configuration comes from environment variables through proxy.LoadConfig, as in cmd/sso-proxy
+	// (variable names as the clean tree's LoadConfig honours them; docs/sso_proxy_config.md)
+	env := map[string]string{
+		"PROVIDER_URL_EXTERNAL": e.Auth.Server.URL,
+		"CLIENT_ID":             ClientID,
+		"CLIENT_SECRET":         ClientSecret,
+		"SESSION_COOKIE_SECRET": base64.StdEncoding.EncodeToString(CookieSecret),
+		"SESSION_COOKIE_SECURE": fmt.Sprint(o.CookieSecure),
+		"UPSTREAM_CONFIGFILE":   cfgFile,
+		"UPSTREAM_CLUSTER":      "test",
+		"UPSTREAM_SCHEME":       "http",
+		// the default upstream timeout (10 s of wall clock) could fire on a heavily loaded machine
+		"UPSTREAM_DEFAULT_TIMEOUT":  "5m",
+		"UPSTREAM_DEFAULT_PROVIDER": "idp",
+		"LOGGING_ENABLE":            "true",
 	}
-	c.ClientConfig.ID = ClientID
-	c.ClientConfig.Secret = ClientSecret
-	c.SessionConfig.CookieConfig.Secret = base64.StdEncoding.EncodeToString(CookieSecret)
-	c.SessionConfig.CookieConfig.Secure = o.CookieSecure
-	c.SessionConfig.CookieConfig.Domain = o.CookieDomain
+	if o.ProviderExternal != "" {
+		env["PROVIDER_URL_EXTERNAL"], env["PROVIDER_URL_INTERNAL"] = o.ProviderExternal, o.ProviderInternal
+	}
+	if o.CookieDomain != "" {
+		env["SESSION_COOKIE_DOMAIN"] = o.CookieDomain
+	}
 	if o.Lifetime != 0 {
-		c.SessionConfig.TTLConfig.Lifetime = o.Lifetime
+		env["SESSION_TTL_LIFETIME"] = o.Lifetime.String()
 	}
 	if o.Valid != 0 {
-		c.SessionConfig.TTLConfig.Valid = o.Valid
+		env["SESSION_TTL_VALID"] = o.Valid.String()
 	}
 	if o.Grace != 0 {
-		c.SessionConfig.TTLConfig.GracePeriod = o.Grace
+		env["SESSION_TTL_GRACEPERIOD"] = o.Grace.String()
 	}
-	c.UpstreamConfigs.ConfigsFile = cfgFile
-	c.UpstreamConfigs.Cluster = o.Cluster
-	if c.UpstreamConfigs.Cluster == "" {
-		c.UpstreamConfigs.Cluster = "test"
+	if o.Cluster != "" {
+		env["UPSTREAM_CLUSTER"] = o.Cluster
 	}
-	c.UpstreamConfigs.Scheme = "http"
-	c.UpstreamConfigs.DefaultConfig.ProviderSlug = o.Slug
-	if o.Slug == "" {
-		c.UpstreamConfigs.DefaultConfig.ProviderSlug = "idp"
+	if o.Slug != "" {
+		env["UPSTREAM_DEFAULT_PROVIDER"] = o.Slug
 	}
-	c.UpstreamConfigs.DefaultConfig.AllowedGroups = o.DefaultGroups
-	c.UpstreamConfigs.DefaultConfig.EmailConfig.AllowedDomains = o.DefaultDoms
-	c.UpstreamConfigs.DefaultConfig.EmailConfig.AllowedAddresses = o.DefaultAddrs
-	// the default upstream timeout (10 s of wall clock) could fire on a heavily loaded machine
-	c.UpstreamConfigs.DefaultConfig.Timeout = 5 * time.Minute
+	if len(o.DefaultGroups) > 0 {
+		env["UPSTREAM_DEFAULT_GROUPS"] = strings.Join(o.DefaultGroups, ",")
+	}
+	if len(o.DefaultDoms) > 0 {
+		env["UPSTREAM_DEFAULT_EMAIL_DOMAINS"] = strings.Join(o.DefaultDoms, ",")
+	}
+	if len(o.DefaultAddrs) > 0 {
+		env["UPSTREAM_DEFAULT_EMAIL_ADDRESSES"] = strings.Join(o.DefaultAddrs, ",")
+	}
 	if o.UpstreamTimeout != 0 {
-		c.UpstreamConfigs.DefaultConfig.Timeout = o.UpstreamTimeout
+		env["UPSTREAM_DEFAULT_TIMEOUT"] = o.UpstreamTimeout.String()
 	}
-	c.RequestSignerConfig.Key = o.SignerKeyPEM
-	c.LoggingConfig.Enable = true
+	if o.SignerKeyPEM != "" {
+		env["REQUESTSIGNER_KEY"] = o.SignerKeyPEM
+	}
+	c, err := loadConfigFromEnv(env)
+	if err != nil {
+		e.Close()
+		return nil, fmt.Errorf("config load: %w", err)
+	}
 	if o.TemplateVars != nil {
 		proxy.VerifSetTemplateVars(&c.UpstreamConfigs, o.TemplateVars)
 	}
